@@ -431,7 +431,24 @@ Theorem multi_array_bounded sh ents :
   end.
 Proof.
   intros Hs He. apply sel_agree_spec.
-  pose proof family_3_ok as H. unfold family_ok in H.
+  pose proof family_3_ok as H. unfold family_ok, family_ok_on in H.
+  rewrite forallb_forall in H. specialize (H sh Hs).
+  rewrite forallb_forall in H. exact (H ents He).
+Qed.
+
+Lemma family_4_ok : family_ok_on family_shapes12 4 = true.
+Proof. vm_compute. reflexivity. Qed.
+
+Theorem multi_array_bounded4 sh ents :
+  In sh family_shapes12 -> In ents (tuples 4 sh) ->
+  match ref_getitem sh ents, np_getitem sh ents with
+  | None, None => True
+  | Some (s1, f1), Some (s2, f2) => s1 = s2 /\ forall o, inb s1 o = true -> f1 o = f2 o
+  | _, _ => False
+  end.
+Proof.
+  intros Hs He. apply sel_agree_spec.
+  pose proof family_4_ok as H. unfold family_ok_on in H.
   rewrite forallb_forall in H. specialize (H sh Hs).
   rewrite forallb_forall in H. exact (H ents He).
 Qed.
